@@ -123,8 +123,8 @@ theorem C17_quiet_core (h : Host) (hw : WF h) (hc : Closed h) (hts : ThreadsStop
       | (simp only [Option.some.injEq, Prod.mk.injEq] at hs
          obtain ⟨_, rfl⟩ := hs
          first
-         | (simp [hg, hbody, hz, Out.isEmission]; done)
-         | (split <;> simp [hg, hbody, hz, Out.isEmission]; done))
+         | (simp [hg, hbody, hz, Out.isEmission, timerOnFinished_eq, notifyOnFinished_eq]; done)
+         | (split <;> simp [hg, hbody, hz, Out.isEmission, timerOnFinished_eq, notifyOnFinished_eq]; done))
 
 /-- **C17, quiet (one block), partial (D31).**  In a closed host in which no thread-based browser has state changes waiting
 in its queue, every block that can occur at all — timer, task resumption, a further close call (sync or async) or a step
@@ -348,7 +348,9 @@ theorem C17_raise_sites (h : Host) (b : Block) (h' : Host) (o : List Out) (hs : 
             · exact hgr [] (by simp) e he)
          | (split at he
             · simp at he
-            · exact hcb _ _ he))
+            · exact hcb _ _ he)
+         | (rw [timerOnFinished_eq] at he; simp at he; done)
+         | (rw [notifyOnFinished_eq] at he; simp at he; done))
 
 /-- full-strength statement: no step of any close call, sync or async, in any state, hands an exception to its caller -/
 def C17_close_never_raises_full : Prop :=
@@ -1072,5 +1074,43 @@ example : (run busy ([.recv 0 0 true false 0] ++ closeSeq ++ [.connectionLost, .
     (fun r => (r.1.tcs, r.2.contains .loopError)) = some ([], false) := by decide
 -- every close call of `overlapSeq` has ended, and `Close.next` says so
 example : (run busy overlapSeq).map (fun r => r.1.closes.map (fun c => c.next 0)) = some [none, none, none] := by decide
+
+/-! ## the timeout handle of a waiting task (seeded defect C17-w4-seed2)
+
+A task waiting in `Zeroconf.async_wait` (between two probes of a registration) holds a `call_later` handle.  The last step of
+every close resolves its future through `async_notify_all` — one loop iteration *after* the close returned — and the task cancels
+the handle only when it is resumed, an iteration later still: if the handle is due in between it fires on a finished future. -/
+
+/-- **the handle and the notification leave a finished future alone**: the two blocks in which a finished future is touched
+emit nothing (no `InvalidStateError` into the loop) — because both go through `_set_future_none_if_not_done` (translated:
+`waiter_timer_guarded`, `resolve_all_guarded`, and the test `not fut.done()` itself) -/
+theorem C17_waiter_timer_never_raises (h : Host) (i : Nat) (h' : Host) (o : List Out) (hs : step h (.waitFire i) = some (h', o)) : o = [] := by
+  simp only [step] at hs
+  split at hs
+  · simp only [Option.some.injEq, Prod.mk.injEq] at hs; exact hs.2.symm
+  · simp only [Option.some.injEq, Prod.mk.injEq] at hs; rw [← hs.2]; exact timerOnFinished_eq
+  · simp at hs
+
+theorem C17_notification_never_raises (h : Host) (h' : Host) (o : List Out) (hs : step h .notifyAll = some (h', o)) : o = [] := by
+  simp only [step, Option.some.injEq, Prod.mk.injEq] at hs
+  rw [← hs.2]
+  split
+  · exact notifyOnFinished_eq
+  · rfl
+
+/-- … and it is the guard that carries this: a handle armed with `future.set_result` directly (the seeded defect), or a guard
+that does not test `fut.done()`, raises into the loop in exactly the state a close produces — wait pending, close finished,
+notification, handle due before the task is resumed -/
+theorem C17_waiter_timer_raises_without_guard
+    (hbad : (Gen.Shutdown.waiter_timer_guarded && !Gen.Shutdown.waiter_guard_sets true) = false) (h : Host) (rest : List Wait) :
+    ∃ h', step { h with waits := .notified :: rest } (.waitFire 0) = some (h', [.loopError]) := by
+  simp only [step, List.getElem?_cons_zero, timerOnFinished, hbad]
+  exact ⟨_, rfl⟩
+
+-- a registration is probing (a wait pending) when the instance is closed; the notification of the close's last step comes
+-- after the return, the wait's handle is due before its task is resumed: nothing is emitted, nothing raises, the wait is gone
+example : (run busy ([.waitStart] ++ closeSeq ++ [.notifyAll, .waitFire 0])).map (fun r => (r.2.drop 9, r.1.waits)) = some ([], []) := by decide
+-- the other order: the handle fires first (the future is resolved by its timeout), then the notification finds it finished in the set
+example : (run busy ([.waitStart] ++ closeSeq ++ [.waitFire 0, .notifyAll, .waitResume 0])).map (fun r => (r.2.drop 9, r.1.waits)) = some ([], []) := by decide
 
 end Zc.Shutdown
